@@ -17,7 +17,7 @@ RULE = (
 ASSUMPTIONS = [
     "0 < t < u; eta in (t,u); c,d,minsd > 0; f >= 0; c_grapa_0 <= c_grapa_max < 1; fixed bet lam in [0,1/u]; rate_error_2 in [0,0.3]",
     "ranges are judged with relative tolerance 1e-12; strictness of shrink_trunc above mu_j is required only where mu_j <= u(1-1e-9)",
-    "positions whose reference mu_j is outside (0,u] are not judged (the statement restricts itself to them)",
+    "bets, factor signs and strictness above mu_j are judged where mu_j lies in (0,u] (the statement restricts them to that); an estimator's values are required to lie in [0,u] at every position",
 ]
 FAMS = ["alpha-fixed", "alpha-shrink", "alpha-optcomp", "bet-fixed", "bet-agrapa",
         "alpha-fixed-inf", "alpha-shrink-inf", "bet-fixed-inf", "bet-agrapa-inf", "alpha-optcomp-inf"]
@@ -158,6 +158,12 @@ def evaluate(case, out):
                 out.cls("eta-varies")
             for j in range(n):
                 if not judged[j]:
+                    # "every estimator yields values in [0,u]" is not conditional on the null mean: where the null has already
+                    # become impossible or certain the alternative still has to be a possible mean
+                    e = eta[j]
+                    if not math.isnan(e):
+                        if not out.expect(-tol * u <= e <= u * (1 + tol), "eta-outside-[0,u]-where-the-null-mean-left-(0,u]", lambda: (j, e, u, mu[j])):
+                            break
                     continue
                 e, m = eta[j], mu[j]
                 if not out.expect(not math.isnan(e), "eta-nan", lambda: (j, eta[:10])):
